@@ -23,6 +23,7 @@ a(r'minidump::context::print_generic_context\|loop', 'for-loop over CpuRegisters
 a(r'minidump::minidump::MinidumpMiscInfo::print\|loop\|\(discr \(<minidump_common::format::XstateFeatureIter', 'for-loop over XstateFeatureIter, whose next() strictly increases self.idx on every call and returns None once idx reaches features.len() (= 64)')
 a(r'XstateFeatureIter<\'_> as std::iter::Iterator>::next\|loop', 'while self.idx < features.len(): self.idx += 1 on every iteration')
 a(r'breakpad_symbols::http::fetch_lookup::\{closure#0\}\|loop', 'awaits res.chunk() until the HTTP body ends (Ok(None)) or a chunk / write fails; termination is the response stream\'s (trusted: reqwest), every iteration consumes one chunk')
+a(r'breakpad_symbols::lookup_leafname\|loop', 'while the leaf starts with `<letter>:`: leaf = &leaf[2..], so leaf.len() drops by 2 on every iteration and the loop is left when len < 2 at the latest')
 a(r'sym_file::parser::SymbolParser::parse_more\|loop', 'every `continue` first advances `input` past at least one byte of a parsed line (nom consumed it) or clears cur_item (which can happen once per item); the loop ends when input is empty')
 a(r'SymbolFile>::parse\|loop', 'lexicographic: (bytes the reader can still deliver, bytes in the buffer, tried_to_grow / in_panic_recovery flags): an iteration reads >= 1 byte, or consumes >= 1 byte, or flips one of the monotone flags, or returns. Decided on every run by the boolean abstraction C09.5 (no slice hash: the model, not a frozen body, carries the argument)', 'C09.5')
 a(r'SymbolFile>::parse_async::\{closure#0\}\|loop', 'same state machine as parse (C10.3 twin rule); chunks come from the HTTP response stream. Decided on every run by the boolean abstraction C09.5', 'C09.5')
